@@ -150,7 +150,19 @@ func ruleShortRead(c *Ctx, r *Report, scope func(*ssa.Function) bool) int {
 				}
 				n++
 				key := fmt.Sprintf("%s:%s.Read", SSAFuncName(f), ts)
-				if inLoop[b] {
+				// the byte count must be looked at: a Read may deliver bytes together with an error (io.EOF with the last
+				// byte), and may deliver none without one
+				countUsed := false
+				if call.Referrers() != nil {
+					for _, ref := range *call.Referrers() {
+						if ex, ok := ref.(*ssa.Extract); ok && ex.Index == 0 && ex.Referrers() != nil && len(*ex.Referrers()) > 0 {
+							countUsed = true
+						}
+					}
+				}
+				if !countUsed {
+					r.Bad("L-SHORTREAD", key, c.Pos(call.Pos()), "the byte count of a direct Read is discarded: a byte delivered together with io.EOF is lost, and a read of zero bytes without error is taken for data")
+				} else if inLoop[b] {
 					r.OK("L-SHORTREAD", key, c.Pos(call.Pos()), "the direct Read is inside a loop")
 				} else {
 					r.Bad("L-SHORTREAD", key, c.Pos(call.Pos()), "a single direct Read outside any loop: a reader that returns fewer bytes than asked for (allowed by io.Reader) leaves the rest of the range unread")
